@@ -582,9 +582,10 @@ def _nunique_df_chunk(df, *by, **kwargs):
     return grouped
 
 
-def _nunique_df_combine(df, levels, sort=False):
+def _nunique_df_combine(df, levels, sort=False, dropna=None):
+    dropna = {"dropna": dropna} if dropna is not None else {}
     result = (
-        df.groupby(level=levels, sort=sort, observed=True)[df.columns[0]]
+        df.groupby(level=levels, sort=sort, observed=True, **dropna)[df.columns[0]]
         .unique()
         .explode()
         .to_frame()
